@@ -287,7 +287,7 @@ int main(int argc, char **argv) {
             return;
         }
         std::vector<uint64_t> cyc; if (comp == "collections") cyc = vg::all_simple_cycles(el);
-        uint64_t nw = weighted ? vg::ipow(alpha.size(), el.m()) : 1;
+        uint64_t nw = weighted ? vg::num_weightings(alpha, el.m()) : 1;
         B b(el, w);
         for (uint64_t s = start_sub; s < nw; ++s) {
             vg::weighting(alpha, el.m(), s, w);
@@ -305,7 +305,7 @@ int main(int argc, char **argv) {
     for (uint64_t u : {total_units / 2, total_units - 1, total_units / 3}) {
         if (u >= total_units) continue;
         vg::EdgeList el = unit_graph(u);
-        uint64_t nw = edge_orders ? 2 : (weighted ? vg::ipow(alpha.size(), el.m()) : 1);
+        uint64_t nw = edge_orders ? 2 : (weighted ? vg::num_weightings(alpha, el.m()) : 1);
         samples.push_back(describe(u, nw / 2, 0).second);
     }
     FILE *o = A.has("out") ? fopen(A.get("out").c_str(), "w") : stdout;
